@@ -467,6 +467,8 @@ class Machine:
             w, o = (a, b) if isinstance(a, W) else (b, a)
             if isinstance(op, ast.Mult):
                 if isinstance(o, Pos):
+                    if o.is_inf() and w.cls == "zero":
+                        return NAN          # inf * 0
                     return Scaled(o, w)
                 if isinstance(o, Num):
                     if o.v == 1:
